@@ -6,6 +6,8 @@ import (
 	"os"
 	"time"
 
+	"github.com/mithrandie/csvq/lib/verifhook"
+
 	"github.com/mithrandie/go-file/v2"
 )
 
@@ -46,12 +48,14 @@ func (m *ControlFile) Close() error {
 				return err
 			}
 		}
+		verifhook.At("cf.closed", m.path)
 
 		if Exists(m.path) {
 			if err := os.Remove(m.path); err != nil {
 				return err
 			}
 		}
+		verifhook.At("cf.removed", m.path)
 	}
 	return nil
 }
@@ -64,12 +68,14 @@ func (m *ControlFile) CloseWithErrors() []error {
 				errs = append(errs, err)
 			}
 		}
+		verifhook.At("cf.closed", m.path)
 
 		if Exists(m.path) {
 			if err := os.Remove(m.path); err != nil {
 				errs = append(errs, err)
 			}
 		}
+		verifhook.At("cf.removed", m.path)
 	}
 	return errs
 }
@@ -90,6 +96,7 @@ func CreateControlFileContext(ctx context.Context, filePath string, fileType Con
 		if _, ok := err.(*LockError); !ok {
 			return nil, err
 		}
+		verifhook.At("retry", filePath)
 
 		select {
 		case <-ctx.Done():
@@ -122,15 +129,18 @@ func TryCreateRLockFile(filePath string) (controlFile *ControlFile, err error) {
 	if LockExists(filePath) {
 		return nil, NewLockError(fmt.Sprintf("failed to create %s file for %q", RLock, filePath))
 	}
+	verifhook.At("rlock.checked", filePath)
 
 	lockFilePath := LockFilePath(filePath)
 	lfp, err := file.Create(lockFilePath)
 	if err != nil {
 		return nil, NewLockError(fmt.Sprintf("failed to create %s file for %q", RLock, filePath))
 	}
+	verifhook.At("rlock.lock_created", filePath)
 	lockFile := NewControlFile(lockFilePath, lfp)
 	defer func() {
 		err = NewCompositeError(err, lockFile.Close())
+		verifhook.At("rlock.lock_released", filePath)
 	}()
 
 	rlockFilePath := RLockFilePath(filePath)
@@ -139,6 +149,7 @@ func TryCreateRLockFile(filePath string) (controlFile *ControlFile, err error) {
 		return nil, NewLockError(fmt.Sprintf("failed to create %s file for %q", RLock, filePath))
 	}
 
+	verifhook.At("rlock.rlock_created", rlockFilePath)
 	return NewControlFile(rlockFilePath, fp), nil
 }
 
@@ -146,20 +157,24 @@ func TryCreateLockFile(filePath string) (*ControlFile, error) {
 	if LockExists(filePath) || RLockExists(filePath) {
 		return nil, NewLockError(fmt.Sprintf("failed to create %s file for %q", Lock, filePath))
 	}
+	verifhook.At("lock.checked", filePath)
 
 	lockFilePath := LockFilePath(filePath)
 	fp, err := file.Create(lockFilePath)
 	if err != nil {
 		return nil, NewLockError(fmt.Sprintf("failed to create %s file for %q", Lock, filePath))
 	}
+	verifhook.At("lock.created", filePath)
 	lockFile := NewControlFile(lockFilePath, fp)
 
 	if RLockExists(filePath) {
+		verifhook.At("lock.backoff", filePath)
 		err := NewLockError(fmt.Sprintf("failed to create %s file for %q", Lock, filePath))
 		err = NewCompositeError(err, lockFile.Close())
 		return nil, err
 	}
 
+	verifhook.At("lock.rechecked", filePath)
 	return lockFile, nil
 }
 
@@ -170,5 +185,6 @@ func TryCreateTempFile(filePath string) (*ControlFile, error) {
 		return nil, NewLockError(fmt.Sprintf("failed to create %s file for %q", Temporary, filePath))
 	}
 
+	verifhook.At("temp.created", tempFilePath)
 	return NewControlFile(tempFilePath, fp), nil
 }
